@@ -1,13 +1,12 @@
 """C15 — scanners keep channels isolated (ownership / non-interference proof).
 
-  storage     each scanner's only field is a private array of 16 per-channel elements; the element
-              type (recursively) holds plain data only: no reference, raw pointer, interior
+  storage     each scanner holds one private array of 16 per-channel elements; the element type and
+              any further field (recursively) hold plain data only: no reference, raw pointer, interior
               mutability; the crate has no statics
-  routing     outer feed: for a message without channel nothing is called and the store is untouched;
-              otherwise exactly one element is borrowed, its index is the channel (low nibble of the
-              status byte, unmodified, by bit provenance), the bounds check cannot fail, the element
-              method gets only that element and the message, and its result is returned unchanged.
-              outer poll(channel): likewise with the parameter
+  isolation   the outer feed / poll are interpreted for each concrete channel k from every reachable
+              typestate of element k, with the other 15 elements as unconstrained tops: no explicit write
+              lands in another element or in a field shared by all channels, and no other element is read
+  system      system messages (status 0xF0-0xFF, seen from every channel): nothing reported, store equal
   reporting   every message reported by an element carries the channel of the triggering call
   start       all 16 elements start identical
 Hence each element's trajectory is a function of its own inputs only.
@@ -69,149 +68,68 @@ def storage_clause(chk, F, which, model):
     cfg = F.cfg
     a = F.adts[model.outer]
     fs = a['variants'][0]['fields']
-    ok = len(fs) == 1 and model.array_len == 16 and model.array_field_private
+    ok = model.array_len == 16 and model.array_field_private
     chk.ob('%s/storage/%s/%s/array' % (PID, cfg, which), 'storage shape', 'proved' if ok else 'refuted',
-           subject={'at': a['span']['at'], 'type': model.outer}, expected='one private field [element; 16]',
+           subject={'at': a['span']['at'], 'type': model.outer}, expected='private fields, exactly one of them an array [per-channel state; 16]',
            found=[(f['name'], f['vis'].split('(')[0], f['ty']['k'], f['ty'].get('len')) for f in fs], nontrivial=False)
     r = plain_data(F, model.sub_ty)
+    for i in model.extra:
+        r = r or plain_data(F, fs[i]['ty'])
     chk.ob('%s/storage/%s/%s/plain-data' % (PID, cfg, which), 'storage shape', 'proved' if r is None else 'refuted',
-           subject={'type': model.sub}, expected='per-channel state holds plain data only (no reference, pointer, interior mutability)',
+           subject={'type': model.sub or model.outer}, expected='scanner state holds plain data only (no reference, pointer, interior mutability)',
            found=r or 'plain', nontrivial=False)
-    cp = F.adts[model.outer]['copy'] and F.adts[model.sub]['copy']
+    cp = F.adts[model.outer]['copy']
     chk.ob('%s/storage/%s/%s/copy' % (PID, cfg, which), 'storage shape', 'proved' if cp else 'refuted',
-           expected='scanner and element are Copy (own no heap, share nothing)', found=cp, nontrivial=False)
+           expected='the scanner is Copy (owns no heap, shares nothing)', found=cp, nontrivial=False)
 
 
-def outer_run(F, model, method, cons, extra_args=(), msg=True):
-    """interpret the outer method with the element method opaque"""
-    calls = []
-    subk = model.sub_key(method)
-
-    def opaque(I, st, fr, t, key, args, gargs):
-        tok = st.fresh('subret', 'opaque')
-        st.events.append(('subcall', key, args, tok))
-        return I.done(st, fr, t, Sc(tok, I.ret_ty(fr, t)))
-    hooks = H.msg_hooks(A.CUR_STATUS, A.CUR_D1, A.CUR_D2)
-    I = Interp(F, abstract_methods=hooks, opaque_calls={subk: opaque})
-    st = I.new_state()
-    st.cons.update(cons)
-    selfv = I.top_of(st, model.outer_ty, 'scanner')
-    st.root().locals['self'] = selfv
-    args = [Rf(0, 'self', (), True)]
-    sub = []
-    if msg:
-        st.root().locals['msg'] = Sc(T.T('msg', 'opaque'), H.param('impl ShortMessage', 0))
-        args.append(Rf(0, 'msg', ()))
-        sub = [H.param('impl ShortMessage', 0)]
-    args += list(extra_args)
-    outs = I.run(model.methods[method][0], args, sub, st)
-    return I, outs, selfv
-
-
-def routing_clause(chk, F, which, model, neutral_len):
+def isolation_clause(chk, F, which):
+    """from the product: no row of the outer feed / poll, interpreted for channel k with the other 15 elements as
+    unconstrained tops, writes or reads another element or writes a field shared by all channels"""
     cfg = F.cfg
-    okey = model.methods['feed'][0]
-    subk = model.sub_key('feed')
-    classes = [('channel-message', VS(0x80, 0xEF), True), ('system-message', VS(0xF0, 0xFF), False)]
-    for cname, svs, has_ch in classes:
-        key = '%s/routing/%s/%s/feed/%s' % (PID, cfg, which, cname)
-
-        def ev(cname=cname, svs=svs, has_ch=has_ch, key=key):
-            cons = {A.CUR_STATUS: svs, A.CUR_D1: VS(0, 127), A.CUR_D2: VS(0, 127)}
-            I, outs, selfv = outer_run(F, model, 'feed', cons)
-            status, why, found = 'proved', '', []
-            for o in outs:
-                calls = [e for e in o.st.events if e[0] == 'subcall']
-                writes = [e for e in o.st.events if e[0] in ('weak-array-write', 'havoc')]
-                if o.kind != 'return':
-                    status, why = ('refuted' if o.kind == 'panic' else 'unproven'), '%s outcome: %s (status in %r)' % (o.kind, o.why, vs_of(A.CUR_STATUS, o.st.cons))
-                    continue
-                if o.st.notes:
-                    status, why = 'unproven', 'unmodelled callee: %s' % o.st.notes[:2]
-                    continue
-                if not has_ch:
-                    unchanged = val_key(o.st.root().locals['self']) == val_key(selfv)
-                    neutral = is_neutral(o.value)
-                    found.append('calls=%d unchanged=%s result=%r' % (len(calls), unchanged, o.value))
-                    if calls or writes or not unchanged or not neutral:
-                        status, why = 'refuted', 'a message without channel reaches a per-channel element or changes the scanner (calls %d, result %r)' % (len(calls), o.value)
-                    continue
-                if len(calls) != 1:
-                    status, why = 'refuted', '%d element calls for one channel message' % len(calls)
-                    continue
-                _, k2, args, tok = calls[0]
-                elem = args[0]
-                want_idx = H.t_low_nibble(A.CUR_STATUS, o.st.cons)
-                idx = [p for p in elem.path if p[0] == 'i'] if isinstance(elem, Rf) else []
-                ok_idx = isinstance(elem, Rf) and elem.local == 'self' and len(idx) == 1 and H.same(idx[0][1], want_idx, o.st.cons)
-                ok_msg = len(args) == 2 and isinstance(args[1], Rf) and args[1].local == 'msg' and not args[1].path
-                ok_ret = isinstance(o.value, Sc) and o.value.term == tok
-                others = val_key(o.st.root().locals['self']) == val_key(selfv)
-                found.append('element index %s' % (T.bits_str(T.bits_of(idx[0][1], o.st.cons, 8)) if idx else '?'))
-                if not ok_idx:
-                    status, why = 'refuted', 'the element index is %s, expected the channel nibble of the status byte' % (
-                        T.bits_str(T.bits_of(idx[0][1], o.st.cons, 8)) if idx else repr(elem))
-                elif not ok_msg:
-                    status, why = 'refuted', 'the element method receives %r instead of the message' % (args[1:],)
-                elif not ok_ret:
-                    status, why = 'refuted', 'the result of the element method is not returned unchanged: %r' % (o.value,)
-                elif not others or writes:
-                    status, why = 'refuted', 'the outer method writes to the element array itself'
-            chk.ob(key, 'routing by channel', status, subject=fn_subject(F, okey),
-                   expected='exactly one element, index = channel nibble, result passed through' if has_ch else 'nothing called, store untouched, neutral result',
-                   found=found[:3], why=why)
-        guarded(chk, key, 'routing by channel', ev)
-    if 'poll' in model.methods:
-        key = '%s/routing/%s/%s/poll' % (PID, cfg, which)
-
-        def evp():
-            ch = H.nt('Channel', A.POLL_CH)
-            I, outs, selfv = outer_run(F, model, 'poll', {A.POLL_CH: VS(0, 15)}, extra_args=[ch], msg=False)
-            status, why = 'proved', ''
-            for o in outs:
-                calls = [e for e in o.st.events if e[0] == 'subcall']
-                if o.kind != 'return' or len(calls) != 1:
-                    status, why = ('refuted' if o.kind == 'panic' or o.kind == 'return' else 'unproven'), '%s outcome with %d element calls (%s)' % (o.kind, len(calls), o.why)
-                    continue
-                _, k2, args, tok = calls[0]
-                elem = args[0]
-                idx = [p for p in elem.path if p[0] == 'i'] if isinstance(elem, Rf) else []
-                ok = isinstance(elem, Rf) and elem.local == 'self' and len(idx) == 1 and H.same(idx[0][1], A.POLL_CH, o.st.cons) \
-                    and len(args) == 2 and H.scalar_of(args[1]) is not None and H.scalar_of(args[1]).term == A.POLL_CH \
-                    and isinstance(o.value, Sc) and o.value.term == tok
-                if not ok:
-                    status, why = 'refuted', 'poll(channel) does not address exactly the element of that channel: %r' % (args,)
-            chk.ob(key, 'routing by channel', status, subject=fn_subject(F, model.methods['poll'][0]),
-                   expected='element index = the channel parameter; result passed through', found=[o.kind for o in outs], why=why)
-        guarded(chk, key, 'routing by channel', evp)
-
-
-def is_neutral(v):
-    p = H.opt_payload(v)
-    if p is not None:
-        return p == ('none',)
-    if isinstance(v, Ar):
-        return all(H.opt_payload(e) == ('none',) for e in v.elems)
-    return False
+    model, spec, P, allp = scanners.product(F, which)
+    for k in sorted(allp):
+        Pk = allp[k]
+        texts, rows, states = [], 0, len(Pk.pairs)
+        for m in Pk.mismatches:
+            if len(m) > 3 and m[3] == 'interference':
+                t = '%s: %s' % (m[1], m[2])
+                if t not in texts:
+                    texts.append(t)
+        lost = [r for r in Pk.rows if r.outcome_kind not in ('return', 'panic')]
+        for r in lost:
+            t = 'unproven: %s outcome on input %s (%s)' % (r.outcome_kind, r.cname, r.why)
+            if t not in texts:
+                texts.append(t)
+        rows = len([r for r in Pk.rows if r.kind != 'reset'])
+        okey = '%s/isolation/%s/%s/channel-%d' % (PID, cfg, which, k)
+        if not rows or not states:
+            chk.ob(okey, 'non-interference on the transition rows', 'unproven', why='no transition row for this channel')
+            continue
+        chk.ob(okey, 'non-interference on the transition rows', scanners.verdict(texts) if texts else 'proved',
+               subject=fn_subject(F, model.outer_key('feed')),
+               expected='feed / poll for channel %d touch only element %d of the per-channel array' % (k, k),
+               found='%d rows from %d reachable typestates' % (rows, states), why='; '.join(texts)[:600])
+    chk.floor('channels_%s_%s' % (which, cfg), 16, len(allp))
 
 
 def reporting_clause(chk, F, which):
     cfg = F.cfg
-    model, spec, P = scanners.product(F, which)
+    model, spec, P, allp = scanners.product(F, which)
     bad = None
     n = 0
-    for r in P.rows:
-        if r.outcome_kind != 'return' or not r.outputs:
-            continue
-        for m in r.outputs:
-            n += 1
-            ch = H.scalar_of(m.get('channel'))
-            want = A.POLL_CH if r.kind == 'poll' else H.t_low_nibble(A.CUR_STATUS, r.cons_out)
-            if ch is None or not H.same(ch.term, want, r.cons_out):
-                bad = 'input %s: reported channel %s' % (r.cname, H.describe(m.get('channel'), r.cons_out))
+    for k in sorted(allp):
+        for r in allp[k].rows:
+            if r.outcome_kind != 'return' or not r.outputs:
+                continue
+            for m in r.outputs:
+                n += 1
+                ch = H.scalar_of(m.get('channel'))
+                if ch is None or not H.same(ch.term, C(k), r.cons_out):
+                    bad = 'input %s on channel %d: reported channel %s' % (r.cname, k, H.describe(m.get('channel'), r.cons_out))
     chk.ob('%s/reporting/%s/%s' % (PID, cfg, which), 'reported channel', 'refuted' if bad else ('proved' if n else 'unproven'),
-           subject=fn_subject(F, model.sub_key('feed')), expected='channel nibble of the triggering message / the polled channel',
-           found='%d reported messages over all transition rows' % n, why=bad or ('' if n else 'no reporting row found'))
+           subject=fn_subject(F, model.sub_key('feed')), expected='channel of the triggering message / the polled channel',
+           found='%d reported messages over all transition rows of all 16 channels' % n, why=bad or ('' if n else 'no reporting row found'))
     # identical start
     key = '%s/start/%s/%s' % (PID, cfg, which)
 
@@ -222,7 +140,7 @@ def reporting_clause(chk, F, which):
         outs = I.run(hit[0], [], hit[1]) if hit else []
         ok = len(outs) == 1 and outs[0].kind == 'return' and isinstance(outs[0].value, Ag)
         if ok:
-            arr = outs[0].value.fields[0]
+            arr = outs[0].value.fields[model.ai] if len(outs[0].value.fields) > model.ai else None
             ok = isinstance(arr, Ar) and len(arr.elems) == 16 and all(val_key(e) == val_key(arr.elems[0]) for e in arr.elems)
         chk.ob(key, 'identical start', 'proved' if ok else 'refuted', expected='16 identical elements', found=[o.kind for o in outs])
     guarded(chk, key, 'identical start', ev)
@@ -230,9 +148,10 @@ def reporting_clause(chk, F, which):
 
 def run(tier, cmd):
     chk = Check(PID, tier, 'proof',
-                'ownership / non-interference: storage-shape audit over the ADT table; abstract interpretation of the outer feed/poll with '
-                'the element method opaque (one borrowed element, index term = channel by bit provenance, result passed through, nothing '
-                'for system messages); reported channel on every extracted transition row',
+                'ownership / non-interference: storage-shape audit over the ADT table; abstract interpretation of the outer feed/poll '
+                'for each of the 16 concrete channels from every reachable typestate with the other 15 per-channel elements as '
+                'unconstrained tops and an explicit-write log (no write to or read of another element, no write to a shared field, '
+                'system messages are the identity and report nothing); reported channel on every extracted transition row',
                 cmd, trusted_base=TRUSTED + ['Rust aliasing rules: a &mut to one array element cannot reach another element (no unsafe code in the crate, C04 R4.1)'],
                 assumptions=['channel() classification of C02 for the abstract message'],
                 explanation='')
@@ -251,7 +170,9 @@ def run(tier, cmd):
             def per(F=F, which=which, name=name):
                 model = A.ScannerModel(F, name)
                 storage_clause(chk, F, which, model)
-                routing_clause(chk, F, which, model, 2 if which == 'polling' else 1)
+                isolation_clause(chk, F, which)
+                scanners.cell_obligations(chk, F, which, 'product with the reference automaton (system messages)',
+                                          classes=('System',), prefix='system', tags=('behaviour', 'interference'))
                 reporting_clause(chk, F, which)
             guarded(chk, '%s/scanner/%s/%s' % (PID, cfg, which), 'routing by channel', per)
     return chk.finish()
